@@ -502,7 +502,13 @@ func ruleGSize(c *Ctx) {
 				okSize = atomName(newTermEnv().Term(r.Results[0])) == "len((*bt.Tx).Bytes(p0))"
 			}
 		}
-		c.Check(okSize, "G-size", "Tx.Size", sz.Pos(), "Size() = len(tx.Bytes())", "Size() is no longer the length of the serialisation")
+		detail := ""
+		if !okSize {
+			// Size() adds the field widths up instead of measuring the serialisation: compared with the length of
+			// the layout engine W extracts from Tx.Bytes
+			okSize, detail = sizeEqualsLayoutLength(c, sz)
+		}
+		c.Check(okSize, "G-size", "Tx.Size", sz.Pos(), "Size() = len(tx.Bytes())", "Size() is no longer the length of the serialisation"+detail)
 	}
 	// the estimate variants measure the estimated final transaction
 	for _, n := range []string{"EstimateSize", "EstimateSizeWithTypes", "EstimateFeesPaid"} {
@@ -921,4 +927,36 @@ func gSizeBySums(c *Ctx, fn *ssa.Function) string {
 		c.Check(okSize, "G-size", "Tx.Size", sz.Pos(), "Size() = the length of the serialisation", "Size() is no longer the length of the serialisation: "+shorten(detail, 300)+" against "+shorten(wantS, 300))
 	}
 	return ""
+}
+
+// sizeEqualsLayoutLength: the number Size() returns, read as a sum expression, equals the length of the layout
+// of Tx.Bytes.
+func sizeEqualsLayoutLength(c *Ctx, sz *ssa.Function) (bool, string) {
+	bytesFn := c.P.Func("", "*Tx", "Bytes")
+	if bytesFn == nil {
+		return false, ": Tx.Bytes not found"
+	}
+	lay := evalWith(c, bytesFn, nil, nil)
+	if u, why := lay.hasUnknown(); u {
+		return false, ": the layout of Tx.Bytes is not known: " + why
+	}
+	want, why := layLen(canonLay(lay))
+	if want == nil {
+		return false, ": length of the layout: " + why
+	}
+	wantS := want.norm().String()
+	r := singleResult(sz, 0)
+	if r == nil {
+		return false, ": Size() has several results"
+	}
+	e2 := &sumEval{w: newWEval(c.P, sz)}
+	got, why := e2.eval(r)
+	if got == nil {
+		return false, ": " + why
+	}
+	g := got.norm().String()
+	if g == wantS {
+		return true, ""
+	}
+	return false, ": adds up " + shorten(g, 300) + " against " + shorten(wantS, 300)
 }
